@@ -141,10 +141,10 @@ def listElems (q : Char) (attr : Str) : List J → Res (List Str)
 def formatValue (q : Char) (attr : Str) (p : CellProps) (v : J) : Res Str :=
   match v with
   | .bool b => .ok (if b then s%"TRUE" else s%"FALSE")
+  | .dict [] => .error .valueError
   | _ =>
   if p.hasEnum then
     match v with
-    | .dict [] => .error .valueError
     | .int n => .ok (intStr n)
     | .flt s => .ok s
     | v => match pyStr v with
@@ -222,6 +222,7 @@ def kvLines (o : Opts) (level aligned : Nat) (comments : Fields) : Fields → Re
   | [] => .ok []
   | (k, v) :: r =>
     if isMetaKey k then kvLines o level aligned comments r
+    else if v = .dict [] then .error .valueError
     else match pyStr v with
       | none => .error .unsupported
       | some t => do
